@@ -25,7 +25,7 @@
 (* ln = the call: op, c (and s), a (integer arguments), v (fresh values),  *)
 (* out, ret, ret2, k, fk, evs (event list, see SVecMem).                   *)
 (***************************************************************************)
-EXTENDS SVecOracle, TLC
+EXTENDS SVecOracle, ShapeRel, TLC
 
 Chk(p, n, a, c) == IF a THEN (IF c THEN <<p, n, 1>> ELSE <<p, n, 0>>) ELSE <<p, n, 2>>
 
